@@ -36,6 +36,8 @@ package keeper
 //@   ensures [C05.cancel.pending] err == nil ==> old(has(Order, msg.OrderId)) && old(Order[msg.OrderId].Status) != OrderCompleted
 //@   ensures [C05.cancel.order] err == nil ==> !has(Order, msg.OrderId)
 //@   ensures [C05.cancel.shards] [C13.cancel.shards] err == nil ==> forall i int :: 0 <= i && i < len(old(Order[msg.OrderId].Shards)) ==> !has(Shard, old(Order[msg.OrderId].Shards)[i])
+//@   ensures [C05.cancel.capacity] [C14.cancel.capacity] err == nil && old(forall i int :: 0 <= i && i < len(Order[msg.OrderId].Shards) && has(Shard, Order[msg.OrderId].Shards[i]) ==> Shard[Order[msg.OrderId].Shards[i]].Status != ShardCompleted) ==>
+//@       forall c string :: Pledge[c] == old(Pledge[c]) && (has(Pledge, c) <==> old(has(Pledge, c)))
 //@   ensures [C05.cancel.model] err == nil && old(has(Metadata, Order[msg.OrderId].DataId)) && len(old(Metadata[Order[msg.OrderId].DataId].Commits)) == 0 ==> !has(Metadata, old(Order[msg.OrderId].DataId))
 //@   ensures [C05.cancel.restore] err == nil && old(has(Metadata, Order[msg.OrderId].DataId)) && len(old(Metadata[Order[msg.OrderId].DataId].Commits)) > 0 && len(old(Metadata[Order[msg.OrderId].DataId].Orders)) > 0 ==>
 //@       has(Metadata, old(Order[msg.OrderId].DataId)) && Metadata[old(Order[msg.OrderId].DataId)].Status == MetaComplete
@@ -47,6 +49,9 @@ package keeper
 //@   loop L2 invariant isProvider ==> contains(provider.TxAddresses, msg0.Creator)
 //@   loop L3 invariant -1 <= rangeindex && rangeindex < len(order.Shards)
 //@   loop L3 invariant forall j int :: 0 <= j && j <= rangeindex ==> !has(Shard, order.Shards[j])
+//@   loop L3 invariant [C05.cancel.capacity] old(forall i int :: 0 <= i && i < len(Order[msg0.OrderId].Shards) && has(Shard, Order[msg0.OrderId].Shards[i]) ==> Shard[Order[msg0.OrderId].Shards[i]].Status != ShardCompleted) ==>
+//@       (forall c string :: Pledge[c] == old(Pledge[c]) && (has(Pledge, c) <==> old(has(Pledge, c)))) && (forall i int :: 0 <= i && i <= MaxUint64 && has(Shard, i) ==> old(has(Shard, i)) && Shard[i] == old(Shard[i]))
+//@   loop L3 invariant [C05.cancel.capacity] order.Shards == old(Order[msg0.OrderId].Shards)
 //@   loop L3 invariant forall c string :: has(PledgeDebt, c) ==> PledgeDebt[c].Debt.Amount >= 0
 //@   loop L3 invariant forall i int :: 0 <= i && i <= MaxUint64 && has(Shard, i) ==> Shard[i].Pledge.Amount >= 0
 
